@@ -123,13 +123,15 @@ theorem records_are_emitted (a : AEAD) (cfg : Cfg) (cid : Nat) (fs0 fs : FS) (op
     (∀ e ∈ fs.sealedC, e.dgram ∈ fs.emC.map (·.2)) ∧ (∀ e ∈ fs.sealedS, e.dgram ∈ fs.emS.map (·.2)) :=
   run_emitted ops fs0 fs (emitted_of_fresh he.toRenetFresh) hr
 
-/-- the same at every intermediate moment of a longer run (the hypotheses restricted to the prefix) -/
+/-- the same at every intermediate moment of a longer run: the run hypotheses are those of the whole run (they
+    restrict to every prefix), the counter conditions those of the moment considered -/
 theorem full_stack_ordered_prefix_always (a : AEAD) (hl : a.Laws) (cfg : Cfg) (cid : Nat) (fs0 fs1 : FS)
-    (ops1 : List FSOp) (he : Established cfg cid fs0) (hr1 : fs0.run a cid ops1 = some fs1)
-    (hnf : NoForgeryRun a cid fs0 ops1) (hss : SingleSessionRun a cid fs0 ops1) (hc : CountersUp cfg fs1)
-    (ch : Nat) (ho : cfg.Ordered ch) : fs1.obtS ch <+: fs1.subC ch :=
-  (full_stack_ordered_prefix a hl cfg cid fs0 fs1 ops1 he hr1 hnf hss).1 hc ch ho
-
+    (ops1 ops2 : List FSOp) (he : Established cfg cid fs0) (hr1 : fs0.run a cid ops1 = some fs1)
+    (hnf : NoForgeryRun a cid fs0 (ops1 ++ ops2)) (hss : SingleSessionRun a cid fs0 (ops1 ++ ops2)) :
+    (CountersUp cfg fs1 → ∀ ch, cfg.Ordered ch → fs1.obtS ch <+: fs1.subC ch) ∧
+    (CountersDown cfg fs1 → ∀ ch, (Cfg.swap cfg).Ordered ch → fs1.obtC ch <+: fs1.subS ch) :=
+  full_stack_ordered_prefix a hl cfg cid fs0 fs1 ops1 he hr1 (runNF_prefix a cid ops1 ops2 fs0 hnf)
+    (runSS_prefix a cid ops1 ops2 fs0 hss)
 
 /-! ## non-vacuity: concrete sessions evaluated by the kernel
 
